@@ -66,3 +66,11 @@ Theorem C10_secant_step : forall a fa b fb : R, fb <> fa -> fa <> 0 \/ fb <> 0 -
   secant_step RN a fa b fb = b - fb * (b - a) / (fb - fa).
 Proof. exact LC10.secant_step_formula. Qed.
 Print Assumptions C10_secant_step.
+
+(* the minimum-friction flow (after the repair of Pipeline.qimin): whatever the two bounded minimisations of scipy
+   (oracles: rx, rf and fx, ff) return, the flow reported has a system head -- as the code evaluated it -- no higher than
+   that at ANY tabulated flow at or above the lower bound of the search (the property allows 0.1 %; the code leaves none) *)
+Theorem C10_qimin_not_above_tabulated : forall (flows : list R) (head : R -> R) (rx rf fx ff q : R),
+  In q flows -> lower_bound RN flows <= q -> snd (qimin RN flows head rx rf fx ff) <= head q.
+Proof. intros flows head rx rf fx ff q. exact (LC10.qimin_not_above_tabulated flows head rx rf fx ff q). Qed.
+Print Assumptions C10_qimin_not_above_tabulated.
